@@ -412,3 +412,148 @@ pub proof fn lemma_c05_v1_tcp(v4: bool, a: Seq<u8>, b: Seq<u8>, p: Seq<u8>, q: S
         lemma_prefix_case_fields(w, v4, a, b, p, q, i, g);
     }
 }
+
+pub open spec fn unknown_head() -> Seq<u8> { b_proxy() + sp() + b_unknown() }
+
+/// byte-level facts of a well-formed UNKNOWN line
+pub proof fn lemma_unknown_bytes(l: Seq<u8>)
+    requires unknown_line(l)
+    ensures
+        l.len() >= 15, l.subrange(0, 13) =~= unknown_head(), is_sep(l[13]),
+        l[l.len() - 2] == 13u8, l[l.len() - 1] == 10u8,
+        forall|j: int| 0 <= j < l.len() - 2 ==> #[trigger] l[j] != 13u8,
+{
+    let head = unknown_head();
+    let n = l.len() as int;
+    if l =~= head + b_crlf() {
+        assert forall|j: int| 0 <= j < n - 2 implies #[trigger] l[j] != 13u8 by { assert(l[j] == head[j]); }
+    } else {
+        let t = choose|t: Seq<u8>| #![auto] l =~= head + sp() + t + b_crlf() && (forall|i: int| 0 <= i < t.len() ==> t[i] != 13u8);
+        assert(l[13] == 32u8);
+        assert forall|j: int| 0 <= j < n - 2 implies #[trigger] l[j] != 13u8 by {
+            if j < 13 { assert(l[j] == head[j]); }
+            else if j == 13 {}
+            else { assert(l[j] == t[j - 14]); }
+        }
+    }
+}
+
+/// a cut inside `PROXY UNKNOWN`
+pub proof fn lemma_unknown_prefix_head(w: Seq<u8>, k: int)
+    requires 0 <= k <= 13, w =~= unknown_head().subrange(0, k)
+    ensures v1v_incomplete(line_verdict(w))
+{
+    lemma_keywords_no_sep();
+    let head = unknown_head();
+    let fs = seq![b_proxy()];
+    let cs = seq![32u8];
+    assert(join_prefix(fs, cs, b_unknown()) == head) by {
+        reveal_with_fuel(join_prefix, 3);
+        assert(join_prefix(fs.subrange(1, 1), cs.subrange(1, 1), b_unknown()) == b_unknown());
+    }
+    let (i, g) = lemma_prefix_decompose(fs, cs, b_unknown(), k);
+    let fi = fs.subrange(0, i); let ci = cs.subrange(0, i);
+    assert(all_no_sep(fi)) by { assert forall|j: int| 0 <= j < fi.len() implies no_sep(#[trigger] fi[j]) by { assert(fi[j] == fs[j]); } }
+    assert(all_sep(ci)) by { assert forall|j: int| 0 <= j < ci.len() implies is_sep(#[trigger] ci[j]) by { assert(ci[j] == cs[j]); } }
+    let whole = if i < 1 { fs[i] } else { b_unknown() };
+    assert(no_sep(g)) by {
+        assert forall|j: int| 0 <= j < g.len() implies !is_sep(#[trigger] g[j]) by { assert(whole.subrange(0, g.len() as int)[j] == whole[j]); }
+    }
+    lemma_split_join_prefix(fi, ci, g, 7);
+    if i == 0 {
+        assert(join_prefix(fi, ci, g) == g);
+        assert(splitn_spec(w, 7) =~= seq![w]);
+        lemma_prefix_case0(w);
+    } else {
+        assert(fi[0] == b_proxy() && ci[0] == 32u8);
+        assert(join_prefix(fi, ci, g) == b_proxy() + seq![32u8] + join_prefix(fi.subrange(1, 1), ci.subrange(1, 1), g));
+        assert(join_prefix(fi.subrange(1, 1), ci.subrange(1, 1), g) == g);
+        assert(fi + seq![g] =~= seq![b_proxy(), g]);
+        lemma_prefix_case1(w, g, b_unknown());
+    }
+}
+
+/// a cut after `PROXY UNKNOWN` and its separator: only the line ending matters
+pub proof fn lemma_unknown_prefix_tail(w: Seq<u8>)
+    requires w.len() >= 14, w.len() <= 107, w.subrange(0, 13) =~= unknown_head(), is_sep(w[13]), !is_suffix_of(b_crlf(), w)
+    ensures v1v_incomplete(line_verdict(w))
+{
+    lemma_keywords_no_sep();
+    let k = w.len() as int;
+    let c1 = w[13];
+    let rest = w.subrange(14, k);
+    assert(w =~= b_proxy() + seq![32u8] + (b_unknown() + seq![c1] + rest)) by {
+        assert forall|j: int| 0 <= j < 13 implies w[j] == unknown_head()[j] by { assert(w.subrange(0, 13)[j] == w[j]); }
+    }
+    lemma_split_cons(b_proxy(), 32u8, b_unknown() + seq![c1] + rest, 7);
+    lemma_split_cons(b_unknown(), c1, rest, 6);
+    lemma_split_len(rest, 5);
+    let parts = splitn_spec(w, 7);
+    assert(parts[0] =~= b_proxy() && parts[1] =~= b_unknown() && parts.len() >= 2);
+    assert(!(parts[1] =~= b_tcp4()) && !(parts[1] =~= b_tcp6()));
+}
+
+// [props: C05]
+/// every proper prefix of a well-formed UNKNOWN line has an incomplete verdict and is not terminated
+pub proof fn lemma_c05_v1_unknown(l: Seq<u8>, k: int)
+    requires unknown_line(l), l.len() <= 107, 0 <= k < l.len()
+    ensures v1v_incomplete(line_verdict(l.subrange(0, k))), !v1_terminated(l.subrange(0, k))
+{
+    broadcast use crate::prelude::prelude_str_axioms;
+    let w = l.subrange(0, k);
+    lemma_unknown_bytes(l);
+    lemma_first_index_bounds(w, 13u8);
+    let c = first_index_of(w, 13u8);
+    if c + 1 < w.len() { assert(w[c] == l[c]); }
+    if k <= 13 {
+        assert(w =~= unknown_head().subrange(0, k)) by {
+            assert forall|j: int| 0 <= j < k implies w[j] == unknown_head()[j] by { assert(l.subrange(0, 13)[j] == l[j]); }
+        }
+        lemma_unknown_prefix_head(w, k);
+    } else {
+        assert(w.subrange(0, 13) =~= l.subrange(0, 13));
+        assert(w[13] == l[13]);
+        assert(!is_suffix_of(b_crlf(), w)) by {
+            if is_suffix_of(b_crlf(), w) {
+                assert(w.subrange(k - 2, k)[0] == 13u8);
+                assert(l[k - 2] == 13u8);
+            }
+        }
+        lemma_unknown_prefix_tail(w);
+    }
+}
+
+// [props: C05]
+/// C05 for the text entry point: every proper prefix of a well-formed line (US-ASCII, so every
+/// prefix is valid UTF-8) is reported incomplete
+pub proof fn lemma_c05_v1(l: Seq<u8>, a: V1Addresses, k: int)
+    requires wf_line(l, a), 0 <= k < l.len(), vstd::utf8::valid_utf8(l.subrange(0, k))
+    ensures v1v_incomplete(entry_verdict_str(l.subrange(0, k)))
+{
+    broadcast use crate::prelude::prelude_str_axioms;
+    broadcast use crate::prelude::prelude_utf8_axioms;
+    let w = l.subrange(0, k);
+    match a {
+        V1Addresses::Unknown => { lemma_c05_v1_unknown(l, k); },
+        V1Addresses::Tcp4(x) => {
+            let (fa, fb, fp, fq) = choose|a: Seq<u8>, b: Seq<u8>, p: Seq<u8>, q: Seq<u8>| #![auto]
+                l =~= tcp4_line(a, b, p, q)
+                && ipv4_text(a) == Some(x.source_address) && ipv4_text(b) == Some(x.destination_address)
+                && port_ok(p) && port_ok(q) && dec_value(p) == x.source_port && dec_value(q) == x.destination_port;
+            assert(l == tcp_line(b_tcp4(), fa, fb, fp, fq));
+            lemma_c05_v1_tcp(true, fa, fb, fp, fq, k);
+        },
+        V1Addresses::Tcp6(x) => {
+            let (fa, fb, fp, fq) = choose|a: Seq<u8>, b: Seq<u8>, p: Seq<u8>, q: Seq<u8>| #![auto]
+                l =~= tcp6_line(a, b, p, q)
+                && ipv6_text(a) == Some(x.source_address) && ipv6_text(b) == Some(x.destination_address)
+                && port_ok(p) && port_ok(q) && dec_value(p) == x.source_port && dec_value(q) == x.destination_port;
+            assert(l == tcp_line(b_tcp6(), fa, fb, fp, fq));
+            lemma_c05_v1_tcp(false, fa, fb, fp, fq, k);
+        },
+    }
+    // the prefix is its own window: it has no CR except possibly as its last byte, and fewer than 107 bytes
+    lemma_first_index_bounds(w, 13u8);
+    assert(v1_window(w) =~= w);
+    assert(str_cut_ok(w, w.len() as int));
+}
